@@ -14,13 +14,30 @@ Definition TAB : string := String (ascii_of_N 9) EmptyString.
 Definition out3 (m s k : string) : string := m ++ TAB ++ s ++ TAB ++ k.
 
 (* ---- argument decoding: one letter per token: n decimal, b hex bytes, t T/F ---- *)
+(* byte-string token: hex, "-" (empty), or the compact form R<seed>x<len> = ramp seed len (payloads at the width
+   of the 16-bit length fields, 64 KiB and more, without 128 KiB case lines) *)
+Definition bytes_of_tok_r (a : string) : option bytes :=
+  match a with
+  | String c r =>
+      if Ascii.eqb c "R" then
+        match Text.split "x"%char r with
+        | [sd; ln] => match N_of_dec sd, N_of_dec ln with
+                      | Some sd, Some ln => Some (ramp sd (N.to_nat ln))
+                      | _, _ => None
+                      end
+        | _ => None
+        end
+      else bytes_of_tok a
+  | _ => bytes_of_tok a
+  end.
+
 Inductive arg := AN (n : N) | AB (b : bytes) | AT (t : bool).
 Fixpoint parse_args (sig : string) (args : list string) : option (list arg) :=
   match sig, args with
   | EmptyString, [] => Some []
   | String c sig', a :: args' =>
       let one := if Ascii.eqb c "n" then option_map AN (N_of_dec a)
-                 else if Ascii.eqb c "b" then option_map AB (bytes_of_tok a)
+                 else if Ascii.eqb c "b" then option_map AB (bytes_of_tok_r a)
                  else if Ascii.eqb c "t" then option_map AT (bool_of_tok a)
                  else None in
       match one, parse_args sig' args' with
